@@ -60,4 +60,66 @@ theorem simulate_dims (s : Spec) (A B : QMat) (c : QVec) (X E P : QMat) (ts : Li
     exact ih (simStep s A B c X E P t)
 
 
+/-! ### finite-map lemmas for the databox returned by `estimate` -/
+
+theorem dbLookup_append {α : Type} (a b : DB α) (k : String) :
+    dbLookup (a ++ b) k = if dbHas a k then dbLookup a k else dbLookup b k := by
+  unfold dbLookup dbHas
+  rw [List.find?_append]
+  cases h : a.find? (fun p => p.1 == k) with
+  | none =>
+    have : a.any (fun p => p.1 == k) = false := by
+      rw [List.find?_eq_none] at h
+      simpa [List.any_eq_false] using h
+    simp [this]
+  | some v =>
+    have : a.any (fun p => p.1 == k) = true := by
+      rw [List.any_eq_true]
+      exact ⟨v, List.mem_of_find?_eq_some h, by simpa using List.find?_some h⟩
+    simp [this]
+
+theorem dbHas_map {α : Type} (a : DB α) (f : String × α → α) (k : String) :
+    dbHas (a.map (fun p => (p.1, f p))) k = dbHas a k := by
+  unfold dbHas
+  simp [List.any_map, Function.comp_def]
+
+theorem dbLookup_map {α : Type} (a : DB α) (f : String → α → α) (k : String) :
+    dbLookup (a.map (fun p => (p.1, f p.1 p.2))) k = (dbLookup a k).map (f k) := by
+  unfold dbLookup
+  induction a with
+  | nil => rfl
+  | cons p ps ih =>
+    simp only [List.map_cons, List.find?_cons]
+    by_cases h : (p.1 == k) = true
+    · have hk : p.1 = k := by simpa using h
+      simp [h, hk]
+    · simp only [h]
+      exact ih
+
+theorem dbLookup_filter_not {α : Type} (b : DB α) (q : String → Bool) (k : String) (hq : q k = false) :
+    dbLookup (b.filter (fun p => !q p.1)) k = dbLookup b k := by
+  unfold dbLookup
+  induction b with
+  | nil => rfl
+  | cons p ps ih =>
+    by_cases h : (p.1 == k) = true
+    · have hk : p.1 = k := by simpa using h
+      simp [List.filter_cons, hk, hq]
+    · by_cases hqp : q p.1 = true
+      · simp only [List.filter_cons, hqp, Bool.not_true, List.find?_cons, h]
+        simpa using ih
+      · simp only [List.filter_cons, hqp, Bool.not_false, List.find?_cons, h, if_true]
+        simpa using ih
+
+theorem dbHas_iff_lookup {α : Type} (a : DB α) (k : String) : dbHas a k = (dbLookup a k).isSome := by
+  unfold dbHas dbLookup
+  induction a with
+  | nil => rfl
+  | cons p ps ih =>
+    by_cases h : (p.1 == k) = true
+    · simp [List.find?_cons, h]
+    · simp only [List.any_cons, List.find?_cons, h, Bool.false_or]
+      simpa using ih
+
+
 end IrisVerif.RedVar
